@@ -228,6 +228,29 @@ fn visit_c04_one(ctx: &Ctx, env: &Env, cfg: &Config, acc: &mut Acc, txs: &[Trans
             for (c, d) in arithmetic(env, txs, rep, cfg) {
                 acc.violation(&ctx.findings, "C04", v(&c, txs, d, json!({"config": "all years, distinct amounts"})));
             }
+            // "in every report": the one-year report of every tax year that has DIVIDEND lines (whether or not the
+            // year has disposals) shows that year's dividend income and tax
+            for (ty, (inc, tax)) in &l.divs {
+                acc.bump("year-reports-with-dividends");
+                match run_calc(txs, Some(*ty), Some(&env.fx), cfg) {
+                    Outcome::Report(r1) => {
+                        let v1 = view::view(&r1);
+                        match v1.years.iter().find(|y| y.year == *ty) {
+                            Some(y1) => {
+                                if !y1.div.close(inc) || !y1.divtax.close(tax) {
+                                    acc.violation(&ctx.findings, "C04", v("dividends", txs, format!("the report for tax year {ty} shows dividend income/tax {}/{} but that year's DIVIDEND lines sum to {}/{}", y1.div, y1.divtax, inc, tax), json!({"year_report": ty})));
+                                }
+                                if rv.years.iter().all(|y| y.year != *ty) {
+                                    acc.bump("shape:dividend-year-without-disposals");
+                                }
+                            }
+                            None => acc.violation(&ctx.findings, "C04", v("dividends", txs, format!("the report for tax year {ty} has no entry for that year"), json!({"year_report": ty}))),
+                        }
+                    }
+                    Outcome::Err { msg, .. } => acc.violation(&ctx.findings, "C04", v("dividends", txs, format!("the report for tax year {ty} fails although the all-years report succeeds: {msg}"), json!({"year_report": ty}))),
+                    Outcome::Panic(m) => acc.violation(&ctx.findings, "C04", v("panic", txs, m, json!({"year_report": ty}))),
+                }
+            }
             // unconfigured year: removing the exemption of any reported year must turn the run into an error
             for y in &rv.years {
                 let mut c2 = cfg.clone();
@@ -283,7 +306,7 @@ pub fn c04(tier: Tier) -> i32 {
     ctx.alphabets.push(d);
     // the real configuration loader through the CLI (process-level configuration menu)
     crate::cli::c04_config_menu(&mut ctx, &mut acc);
-    for k in ["shape:several-tax-years", "shape:year-with-gains-and-losses", "shape:year-with-dividends", "shape:zero-result-disposal", "shape:several-fills-on-one-day", "config:year-removed"] {
+    for k in ["shape:several-tax-years", "shape:year-with-gains-and-losses", "shape:year-with-dividends", "shape:zero-result-disposal", "shape:several-fills-on-one-day", "shape:dividend-year-without-disposals", "config:year-removed"] {
         ctx.require(acc.get(k) > 0, &format!("no state exhibited {k}"));
     }
     ctx.bound = json!({"years_max_events": n});
